@@ -96,8 +96,8 @@ def talkerId (b : Bytes) : String :=
 def reportType (b : Bytes) : String :=
   if b = asciiStr "VDM" then "VDM" else if b = asciiStr "VDO" then "VDO" else "Unknown"
 
-/-- `parse_ais_sentence` -/
-def parseAisSentence (cfg : Cfg) (i : Bytes) : Res (Bytes × Sentence) := do
+/-- `parse_ais_sentence` up to (not including) the conversion of the payload into `AisRawData`. -/
+def parseAisCore (i : Bytes) : Res (Bytes × Sentence) := do
   let (i, talker) ← takeBytes 2 i
   let (i, report) ← takeBytes 3 i
   let (i, _) ← tag [0x2C] i
@@ -117,11 +117,16 @@ def parseAisSentence (cfg : Cfg) (i : Bytes) : Res (Bytes × Sentence) := do
   else do
     -- `messages::message_type(ais_data)` on the *armored* payload (finding D10)
     let mt ← messageType aisData
-    if cfg.isNoalloc && maxSentence < aisData.length then err (.nomFailure .tooLarge)
-    else
-      ok (i, { talker_id := talkerId talker, report_type := reportType report,
-               num_fragments, fragment_number, message_id, channel, data := aisData,
-               fill_bit_count := fill, message_type := mt, message := none })
+    ok (i, { talker_id := talkerId talker, report_type := reportType report,
+             num_fragments, fragment_number, message_id, channel, data := aisData,
+             fill_bit_count := fill, message_type := mt, message := none })
+
+/-- `parse_ais_sentence`: the last step copies the payload (`ais_data.into()`), which in the
+    no-alloc build is `try_into()` a 384-byte `heapless::Vec` and fails with `Failure(TooLarge)`. -/
+def parseAisSentence (cfg : Cfg) (i : Bytes) : Res (Bytes × Sentence) := do
+  let (rest, s) ← parseAisCore i
+  if cfg.isNoalloc && maxSentence < s.data.length then err (.nomFailure .tooLarge)
+  else ok (rest, s)
 
 /-- The optional tag block: `opt(delimited(tag("\\"), take_until("\\"), tag("\\")))` -/
 def tagBlock (i : Bytes) : Res (Bytes × Unit) := do
